@@ -106,7 +106,52 @@ pub assume_specification<'a, T, const N: usize> [<&'a [T; N] as TryFrom<&'a [T]>
 
 
 // ---- str::split(c).collect() -----------------------------------------------------------------
-pub uninterp spec fn split_spec(s: Seq<char>, c: char) -> Seq<Seq<char>>;
+// str::split(c): DEFINED (segments between occurrences of c), with its lemmas proved below; only the link to the exec function is assumed
+pub open spec fn first_idx(s: Seq<char>, c: char) -> int decreases s.len() {
+    if s.len() == 0 { 0 } else if s[0] == c { 0 } else { 1 + first_idx(s.skip(1), c) }
+}
+pub proof fn lemma_first_idx(s: Seq<char>, c: char)
+    ensures 0 <= first_idx(s, c) <= s.len(),
+            first_idx(s, c) < s.len() ==> s[first_idx(s, c)] == c,
+            forall|j: int| 0 <= j < first_idx(s, c) ==> s[j] != c,
+    decreases s.len()
+{
+    if s.len() != 0 && s[0] != c {
+        lemma_first_idx(s.skip(1), c);
+        assert forall|j: int| 0 <= j < first_idx(s, c) implies s[j] != c by { if j > 0 { assert(s.skip(1)[j - 1] == s[j]); } }
+    }
+}
+pub open spec fn split_spec(s: Seq<char>, c: char) -> Seq<Seq<char>> decreases s.len() via split_dec {
+    let i = first_idx(s, c);
+    if i >= s.len() { seq![s] } else { seq![s.take(i)] + split_spec(s.skip(i + 1), c) }
+}
+#[via_fn]
+proof fn split_dec(s: Seq<char>, c: char) { lemma_first_idx(s, c); }
+pub proof fn lemma_first_idx_prefix(a: Seq<char>, c: char, r: Seq<char>)
+    requires !a.contains(c)
+    ensures first_idx(a + seq![c] + r, c) == a.len(), first_idx(a, c) == a.len()
+    decreases a.len()
+{
+    let s = a + seq![c] + r;
+    if a.len() == 0 { assert(s[0] == c); }
+    else {
+        assert(a[0] != c) by { if a[0] == c { assert(a.contains(c)); } }
+        assert(s[0] == a[0]);
+        assert(!a.skip(1).contains(c)) by { if a.skip(1).contains(c) { let j = choose|j: int| 0 <= j < a.skip(1).len() && a.skip(1)[j] == c; assert(a[j + 1] == c); assert(a.contains(c)); } }
+        lemma_first_idx_prefix(a.skip(1), c, r);
+        assert(s.skip(1) =~= a.skip(1) + seq![c] + r);
+    }
+}
+pub proof fn lemma_split_cons(a: Seq<char>, c: char, r: Seq<char>)
+    requires !a.contains(c)
+    ensures split_spec(a + seq![c] + r, c) == seq![a] + split_spec(r, c), split_spec(a, c) == seq![a]
+{
+    lemma_first_idx_prefix(a, c, r);
+    let s = a + seq![c] + r;
+    assert(s.take(a.len() as int) =~= a);
+    assert(s.skip(a.len() as int + 1) =~= r);
+}
+
 #[verifier::external_body]
 pub fn str_split_char<'a>(s: &'a str, c: char) -> (r: Vec<&'a str>)
     ensures r@.len() >= 1,
